@@ -1,7 +1,9 @@
 """C10 — single and double precision instantiations agree and are both correct."""
-from . import relprops, relrun
+import random
+
+from . import c15, engine, relprops, relrun
 LEVEL = 'proof'
-W = {'rect': 0.25, 'oct': 0.3, 'share': 0.15, 'lat': 0.1, 'gp': 0.2}
+W = {'rect': 0.25, 'oct': 0.3, 'share': 0.15, 'lat': 0.1, 'gp': 0.2, 'fan': 0.12, 'sliver': 0.12, 'boxes': 0.05, 'near': 0.12}
 
 
 def run(rep, tier, seed):
@@ -9,3 +11,33 @@ def run(rep, tier, seed):
                    'each group = 4 operations x (operands rounded to f32 computed in f64, the same computed in f32); equal coordinate for '
                    'coordinate when both runs are exact; the f32 result must be the named region (verified checker; tolerance 1e-4 x '
                    'magnitude when rounded).')
+    if rep.violations:
+        return
+    # the orientation predicate and the two public orders, single against double precision, on segment pairs whose
+    # coordinates are exactly representable in both (nearly collinear points, mixed magnitudes, signed zeros)
+    rng = random.Random(seed + 10)
+    n = 1500 if tier == 'quick' else 40000
+    fj = c15.float_pairs(rng, n, 32)
+    l32 = [c15.pair_line('s%d' % i, j[0], j[1], j[2], j[3], prec=32) for i, j in enumerate(fj)]
+    l64 = [c15.pair_line('s%d' % i, j[0], j[1], j[2], j[3], prec=64) for i, j in enumerate(fj)]
+    i32 = engine.run_lines(engine.impl_bin('r'), l32, timeout=600)
+    i64 = engine.run_lines(engine.impl_bin('r'), l64, timeout=600)
+    m32 = engine.run_lines(engine.MODEL, l32, timeout=1800)
+    m64 = engine.run_lines(engine.MODEL, l64, timeout=1800)
+    pay = engine.payload
+    dev = [k for k in range(n) if pay(i32[k]) != pay(m32[k]) or pay(i64[k]) != pay(m64[k])]
+    hard = [k for k in dev if pay(i64[k]) == pay(m64[k]) == pay(m32[k])]
+    rep.coverage['order_pairs_f32_vs_f64'] = n
+    rep.coverage['order_pairs_where_f32_and_f64_models_differ'] = sum(1 for k in range(n) if pay(m32[k]) != pay(m64[k]))
+    rep.log('%d segment pairs in both precisions: %d deviate from the model, %d of them are f32-only deviations' % (n, len(dev), len(hard)))
+    if hard:
+        k = hard[0]
+        rep.violation('C10: Ord::cmp / compare_segments answer %s in f32 but %s in f64 on a segment pair exactly representable in both '
+                      '(the bit-exact models of both instantiations say %s); %d such pairs' % (pay(i32[k]), pay(i64[k]), pay(m32[k]), len(hard)),
+                      {'line_f32': l32[k], 'line_f64': l64[k], 'implementation_f32': i32[k], 'implementation_f64': i64[k], 'model': m32[k],
+                       'replay_cmd': "printf '%s\\n' '<line>' | harness/target/release/vh"})
+    elif dev:
+        k = dev[0]
+        rep.violation('correspondence Cmp.cmp_events / compare_segments <-> implementation broken on %d segment pair(s)' % len(dev),
+                      {'correspondence': 'coq/theories/Cmp.v at NB32 / NB64', 'line_f32': l32[k], 'implementation_f32': i32[k], 'model_f32': m32[k],
+                       'implementation_f64': i64[k], 'model_f64': m64[k]}, nofail=True)
